@@ -1,17 +1,27 @@
-(* C08 / B — instance of the generic driver theorem for the tables of the CURRENT parser.go
-   (coq/gen/GenTables.v, regenerated on every run).  Slow file: E and MD are computed from the tables by
-   fixpoint iteration inside Coq and the finite checks are discharged by vm_compute. *)
-From Coq Require Import ZArith List Bool.
-From Verif Require Import gen.GenTables c08.LR c08.LRCheck c08.LRProofs.
+(* C08 / B — instance of the generic driver theorems for the tables of the CURRENT parser.go
+   (coq/gen/GenTables.v, regenerated on every run).  Slow file: E, MD, AL and RHO are computed from the tables
+   by fixpoint iteration inside Coq and the finite checks are discharged by vm_compute. *)
+From Coq Require Import ZArith List Bool Lia.
+From Verif Require Import gen.GenTables c08.LR c08.LRCheck c08.LRProofs c08.LRTerm.
 Import ListNotations.
 Open Scope Z_scope.
 
 Definition E_real : list (list Z) := Eval vm_compute in the_E the_tables.
 Definition MD_real : list Z := Eval vm_compute in the_MD the_tables E_real.
+(* the "symbol type map": for every state the dynamic types the value in its stack slot can have *)
+Definition AL_real : list (list Z) := Eval vm_compute in the_AL the_tables E_real.
+Definition RHO_real : list Z := Eval vm_compute in the_RHO the_tables E_real.
 
 (* finite check (ii): E_real is closed under one driver round from each of its nodes for each of the
-   tokens yylex1 can produce; every reduction possible in state s pops at most MD_real(s) entries *)
-Lemma closed_real : closed the_tables E_real MD_real = true.
+   tokens yylex1 can produce; every reduction possible in state s pops at most MD_real(s) entries; every
+   type assertion yyDollar[k].value.(T) of a rule reducible in s reads a slot whose states allow only T, and
+   what the action stores is allowed in the goto state *)
+Lemma closed_real : closed the_tables E_real MD_real AL_real = true.
+Proof. vm_compute. reflexivity. Qed.
+
+(* finite check (iii): $end is never shifted, a state that reads no lookahead does not default to "error",
+   and RHO_real ranks the reduce edges *)
+Lemma term_ok_real : term_ok the_tables E_real RHO_real = true.
 Proof. vm_compute. reflexivity. Qed.
 
 (* finite check (i): for every state number 0 <= s < len(yyPact) and every token, and for every rule
@@ -24,17 +34,11 @@ Definition n_rules : Z := Eval vm_compute in zlen (tR2 the_tables).
 Definition n_tokens : nat := Eval vm_compute in length (all_tokens the_tables).
 Definition n_edges : nat := Eval vm_compute in edge_count E_real.
 Definition n_nodes : nat := Eval vm_compute in length (nodes E_real).
+(* every state allows exactly one dynamic type *)
+Definition n_single_typed : nat := Eval vm_compute in length (filter (fun l => Nat.eqb (length l) 1) AL_real).
 
+
+(* safety: no Panic site is ever reached (table index, stack pop count, yyDollar slicing, type assertion, fuel) *)
 Theorem parse_driver_total : forall (input : list Z) (fuel : nat) (site : nat),
   run the_tables fuel (init input) <> OPanic site.
-Proof. exact (driver_never_panics the_tables E_real MD_real closed_real). Qed.
-
-Theorem parse_tables_index_safe :
-  (forall s t, 0 <= s < zlen (tPact the_tables) -> In t (all_tokens the_tables) ->
-     is_ok (simple_state the_tables s) = true /\ is_ok (idx 13 (tDef the_tables) s) = true /\
-     is_ok (errshift_of the_tables s) = true /\ is_ok (shift_of the_tables s t) = true /\
-     (idx 13 (tDef the_tables) s = Ok (-2) -> is_ok (exca_lookup the_tables s t) = true)) /\
-  (forall n base, 0 <= n < zlen (tR2 the_tables) -> 0 <= base < zlen (tPact the_tables) ->
-     exists nt r2, idx 32 (tR1 the_tables) n = Ok nt /\ idx 30 (tR2 the_tables) n = Ok r2 /\ 0 <= r2 /\
-                   is_ok (idx 33 (tPgo the_tables) nt) = true /\ is_ok (goto_of the_tables base nt) = true).
-Proof. exact (index_safe the_tables index_ok_real). Qed.
+Proof. exact (driver_never_panics the_tables E_real MD_real AL_real closed_real). Qed.
